@@ -1629,8 +1629,16 @@ func (self *Aof) waitLockAofChannel(_ *AofChannel) {
 		}
 	}
 	if self.channelFlushWaiter != nil {
-		close(self.channelFlushWaiter)
-		self.channelFlushWaiter = nil
+		queueCount := 0
+		for _, channel := range self.channels {
+			channel.queueGlock.Lock()
+			queueCount += channel.queueCount
+			channel.queueGlock.Unlock()
+		}
+		if queueCount == 0 {
+			close(self.channelFlushWaiter)
+			self.channelFlushWaiter = nil
+		}
 	}
 	self.aofGlock.Unlock()
 }
